@@ -18,13 +18,14 @@ pub fn new_box(area: &str) -> Option<Box<dyn VerifBox>> {
         "c17" => Some(Box::new(
             crate::protocol::libp2p::kademlia::verif_c17::StoreBox::new(),
         )),
+        "c05" => Some(Box::new(crate::transport::manager::verif_c05::ManagerBox::new())),
         _ => None,
     }
 }
 
 /// Names of all adapters.
 pub fn areas() -> Vec<&'static str> {
-    vec!["c17"]
+    vec!["c17", "c05"]
 }
 
 /// Decode a hex string.
